@@ -64,6 +64,9 @@ def gate1(v):
     confirmed = False; encoding_ok = True; notes = []
     dbg_variant = 'dbg' in v.get('variant', '')
     profiles = [native.profile_for(v['variant'], release=False), native.profile_for(v['variant'], release=True)]
+    if pred is not None and pred.get('status') == 'PANIC' and 'overflow' in str(pred.get('panic', '')):
+        # an arithmetic overflow that release builds wrap silently: confirm on the release control flow with overflow checks compiled in
+        profiles.append('release-swar-ovf')
     for prof in profiles:
         nat = native.run_native([(entry, v['flags'], v['cap'], v['buf'])], prof)[0]
         results[prof] = nat
